@@ -185,7 +185,15 @@ func TestC04(t *testing.T) {
 			c.Prefix = strings.Join(gt, " ")
 			c.Body = strings.Join(bodyTokens(body), " ")
 			base, _ := GenText(t, globals, body, true, 8)
-			rep := rapid.IntRange(1, 3).Draw(t, "rep")
+			if rapid.IntRange(0, 3).Draw(t, "fromsamples") != 0 {
+				// several independent samples of the pattern: usually several matches
+				var parts []string
+				for i := rapid.IntRange(2, 4).Draw(t, "nsamples"); i > 0; i-- {
+					parts = append(parts, SampleFromPattern(t, globals, body))
+				}
+				base = strings.Join(parts, rapid.SampledFrom([]string{"", " ", "\n", "b"}).Draw(t, "joiner"))
+			}
+			rep := rapid.IntRange(1, 2).Draw(t, "rep")
 			c.Text = strings.Repeat(base, rep)
 			if len(c.Text) > 14 {
 				c.Text = c.Text[:14]
